@@ -140,7 +140,7 @@ def jobs(tier):
     csrc = [os.path.join(HERE, 'words_cmp.c'), os.path.join(OUT, 'vaset_bodies.c')]
     for f, n in wsizes.items():
         if f == 'cmp':
-            J.append(Job('bounded_word_cmp_n%d' % n, csrc, 'hw_cmp', includes=inc, inputs=['x', 'arr[*', 'arr2[*'],
+            J.append(Job('bounded_word_cmp_n%d' % n, csrc, 'hw_cmp', includes=inc, inputs=['x', 'arr[*', 'arr2[*', 'a.cov.__base0.len', 'b.cov.__base0.len'],
                          defines=['C16_NMAX=%d' % n], kind='bounded', unwind=2 * n + 3, timeout=1200, cbmc_args=['--object-bits', '10'],
                          note='bounded: at most %d ranges per set; value_aset::cmp' % n))
         else:
@@ -338,30 +338,55 @@ def parse_aset(txt):
 def replay_word(r):
     """Zwerg words over address sets, on the real library through queries, against the interval-set oracle."""
     word = r.job.name[len('bounded_word_'):].rsplit('_n', 1)[0]
+    def num(x):
+        return int(''.join(ch for ch in str(x) if ch.isdigit()) or 0)
+    def flag(x):
+        return str(x).strip() in ('TRUE', 'true', '1')
     A = cex_state(r.cex, 'arr', 'a.cov.__base0.len')
     B = cex_state(r.cex, 'arr2', 'b.cov.__base0.len')
+    if word == 'cmp' and not A and not B:
+        # the cmp harness names its sets the same way but records no lengths separately
+        A = cex_state(r.cex, 'arr', 'a.cov.__base0.len')
+    def lit(u, s):
+        u = num(u)
+        return str(u - (1 << 64)) if (s and u >= 1 << 63) else str(u)
+    def addr(u, s):
+        u = num(u)
+        return 0 if (s and u >= 1 << 63) else u
     qa, qb = aset_expr(A), aset_expr(B)
-    zw = {'contains': '?contains', 'overlaps': '?overlaps', 'overlap': 'overlap', 'add': 'add', 'sub': 'sub', 'length': 'length'}[word]
-    q = ('%s %s' % (qa, zw)) if word == 'length' else ('%s %s %s' % (qa, qb, zw))
+    cA, cB = canon(A), canon(B)
+    bl, bv = lit(r.cex.get('bu', 0), flag(r.cex.get('bs', 0))), addr(r.cex.get('bu', 0), flag(r.cex.get('bs', 0)))
+    al, av = lit(r.cex.get('au', 0), flag(r.cex.get('as', 0))), addr(r.cex.get('au', 0), flag(r.cex.get('as', 0)))
+    if word == 'length':
+        q, kind, exp = '%s length' % qa, 'num', sum(l for _, l in cA)
+    elif word in ('contains', 'overlaps'):
+        q, kind = '%s %s ?%s' % (qa, qb, word), 'pred'
+        exp = (inter(cA, cB) == cB) if word == 'contains' else bool(inter(cA, cB))
+    elif word == 'cmp':
+        q, kind, exp = '%s %s ?eq' % (qa, qb), 'pred', cA == cB
+    elif word == 'contains_cst':
+        q, kind, exp = '%s %s ?contains' % (qa, bl), 'pred', bool(inter(cA, [(bv, 1)]))
+    elif word == 'aset_cst_cst':
+        lo, hi = min(av, bv), max(av, bv)
+        q, kind, exp = '%s %s aset' % (al, bl), 'set', canon([(lo, hi - lo)])
+    elif word in ('add_cst', 'sub_cst'):
+        q, kind = '%s %s %s' % (qa, bl, word[:3]), 'set'
+        exp = canon(cA + [(bv, 1)]) if word == 'add_cst' else diff(cA, [(bv, 1)])
+    else:
+        q, kind = '%s %s %s' % (qa, qb, word), 'set'
+        exp = {'overlap': inter(cA, cB), 'add': canon(cA + cB), 'sub': diff(cA, cB)}[word]
     res = vlib.zw_queries([q], OUT, dw=True)
     if not res or res[0][0] is None:
         return {'reproduced': False, 'error': 'query failed: %r' % (res,), 'query': q}
     cnt, txt = res[0]
-    cA, cB = canon(A), canon(B)
-    if word == 'contains':
-        exp = int(inter(cA, cB) == cB)
+    top = txt.strip().strip('<>').split('|')[-1]
+    if kind == 'pred':
         bad = (cnt > 0) != bool(exp)
-    elif word == 'overlaps':
-        exp = int(bool(inter(cA, cB)))
-        bad = (cnt > 0) != bool(exp)
-    elif word == 'length':
-        exp = sum(l for _, l in cA)
-        bad = txt.strip().strip('<>').split('|')[-1] not in (str(exp), hex(exp))
+    elif kind == 'num':
+        bad = top not in (str(exp), hex(exp))
     else:
-        exp = {'overlap': inter(cA, cB), 'add': canon(cA + cB), 'sub': diff(cA, cB)}[word]
-        got = parse_aset(txt.strip().strip('<>').split('|')[-1])
-        bad = got != exp
-    return {'reproduced': bool(bad), 'query': q, 'real_library': txt.strip()[:200], 'expected_as_sets': exp}
+        bad = parse_aset(top) != exp
+    return {'reproduced': bool(bad), 'query': q, 'real_library': txt.strip()[:200], 'expected': exp}
 
 
 def replay(r):
